@@ -402,12 +402,31 @@ class FetchAtt:
     ####################################################################
     #
     def _body(
-        self, msg: Message | EmailMessage, section: None | list[int | str]
+        self,
+        msg: Message | EmailMessage,
+        section: None | list[int | str],
+        is_message: bool = False,
     ) -> bytes:
+        """
+        `is_message` is True when `msg` is the message itself or a message
+        encapsulated in a message/rfc822 part (not a mere body part.)
+        """
         if not section:
             return msg_as_bytes(msg)
 
         if len(section) == 1:
+            # The TEXT of a message with an empty body is empty
+            # (msg_as_bytes always ends its result with CRLF), so that
+            # HEADER followed by TEXT is the message.
+            #
+            if (
+                is_message
+                and isinstance(section[0], str)
+                and section[0].upper() == "TEXT"
+                and not msg.is_multipart()
+                and not msg.get_payload()
+            ):
+                return b""
             return self._single_section(msg, section[0])
 
         if isinstance(section[0], int):
@@ -426,7 +445,21 @@ class FetchAtt:
             try:
                 bp = msg.get_payload(section[0] - 1)
                 assert isinstance(bp, Message)
-                return self._body(bp, section[1:])
+                # HEADER, TEXT and part numbers below a message/rfc822 part
+                # refer to the encapsulated message; MIME to the part itself.
+                #
+                encapsulated = (
+                    bp.get_content_type() == "message/rfc822"
+                    and bp.is_multipart()
+                    and not (
+                        isinstance(section[1], str)
+                        and section[1].upper() == "MIME"
+                    )
+                )
+                if encapsulated:
+                    bp = bp.get_payload(0)
+                    assert isinstance(bp, Message)
+                return self._body(bp, section[1:], is_message=encapsulated)
             except (TypeError, IndexError) as err:
                 raise BadSection(
                     f"Message does not contain subsection {section[0]} "
@@ -441,13 +474,12 @@ class FetchAtt:
         Fetch the appropriate section of the message, flatten into a string
         and return it to the user.
         """
-        msg_text = self._body(msg, section)
+        msg_text = self._body(msg, section, is_message=True)
 
-        # We need to always terminate with crlf.
+        # We need to always terminate with crlf (unless there is nothing.)
         #
-        msg_text = (
-            msg_text if msg_text.endswith(b"\r\n") else msg_text + b"\r\n"
-        )
+        if msg_text and not msg_text.endswith(b"\r\n"):
+            msg_text += b"\r\n"
 
         # If this is a partial only return the bits asked for.
         #
